@@ -68,3 +68,49 @@ def gen(rng: Rng, member: int | None = None, offset: int = 0) -> dict:
     its = [f"FLOAT[{B}, {S}, D]"] + ["FLOAT[D, D]"] * 3 + (["FLOAT[D]"] * 3 if bias else []) + ([mask_type] if mask_type else [])
     return {"pool": "script", "src": "\n".join(lines), "fn": "attention", "it": "[" + ", ".join(its) + "]",
             "ot": f"[FLOAT[{B}, {S}, D]]", "variant": f"{mask}/{scale}/H{H}xDh{Dh}/{'static' if static else 'symbolic'}{'/bias' if bias else ''}"}
+
+
+GQA_ATTRS = [[], ["scale=0.125"], ["softcap=30.0"], ["scale=0.25", "softcap=20.0"], ["scale=0.5", "softcap=10.0", "qk_matmul_output_mode=0"],
+             ["qk_matmul_output_mode=0", "scale=0.125"], ["is_causal=0", "scale=0.125", "softcap=50.0"], ["scale=1.0", "is_causal=0"]]
+GQA_N_VARIANTS = len(GQA_ATTRS)
+
+
+def gen_gqa(rng: Rng, member: int | None = None, offset: int = 0) -> dict:
+    """Grouped-query attention in plain ONNX opset 23 (key/value caches concatenated, expanded over the group dimension and
+    reshaped to the query's head count, then Attention) — the pattern of rules/fusion/_gqa.py — with the Attention node
+    carrying 0..3 attributes in varied order, varied head counts, with and without a mask."""
+    attrs = GQA_ATTRS[(member + offset) % len(GQA_ATTRS)] if member is not None else rng.choice(GQA_ATTRS)
+    attrs = list(attrs)
+    if rng.chance(0.5):
+        attrs.reverse()
+    Hn, Hkv, Dh = rng.choice([(8, 4, 16), (4, 2, 8), (8, 2, 8), (6, 3, 8)])
+    G = Hn // Hkv
+    B, S, P = rng.choice([(2, 4, 8), (1, 3, 5), (2, 2, 2)])
+    mask = rng.chance(0.3)
+    kw = "".join(", " + a for a in attrs)
+    lines = [
+        "import onnxscript",
+        "from onnxscript import FLOAT, script",
+        'op = onnxscript.values.Opset("", 23)',
+        f"H = [{Hn}]", f"Hkv = [{Hkv}]", f"D = [{Dh}]", f"G = [{G}]", "",
+        "@script(ir_version=10)",
+        f"def gqa(query_BHSD, key_BHkvSD, value_BHkvSD, past_key_BHkvPD, past_value_BHkvPD{', mask' if mask else ''}):",
+        "    present_key_BHkvStD = op.Concat(past_key_BHkvPD, key_BHkvSD, axis=-2)",
+        "    present_key_BHkv1StD = op.Unsqueeze(present_key_BHkvStD, 2)",
+        "    B = op.Shape(query_BHSD, start=0, end=1)",
+        "    T = op.Shape(present_key_BHkvStD, start=2, end=3)",
+        "    expand_shape = op.Concat(B, Hkv, G, T, D, axis=0)",
+        "    present_key_BHkvGStD = op.Expand(present_key_BHkv1StD, expand_shape)",
+        "    reshape_shape = op.Concat(B, H, T, D, axis=0)",
+        "    present_key_BHStD = op.Reshape(present_key_BHkvGStD, reshape_shape)",
+        "    present_value_BHkvStD = op.Concat(past_value_BHkvPD, value_BHkvSD, axis=-2)",
+        "    present_value_BHkv1StD = op.Unsqueeze(present_value_BHkvStD, 2)",
+        "    present_value_BHkvGStD = op.Expand(present_value_BHkv1StD, expand_shape)",
+        "    present_value_BHStD = op.Reshape(present_value_BHkvGStD, reshape_shape)",
+        f"    return op.Attention(query_BHSD, present_key_BHStD, present_value_BHStD{', mask' if mask else ''}{kw})",
+        "",
+    ]
+    its = [f"FLOAT[{B}, {Hn}, {S}, {Dh}]", f"FLOAT[{B}, {Hkv}, {S}, {Dh}]", f"FLOAT[{B}, {Hkv}, {S}, {Dh}]",
+           f"FLOAT[{B}, {Hkv}, {P}, {Dh}]", f"FLOAT[{B}, {Hkv}, {P}, {Dh}]"] + ([f"FLOAT[{S}, {S + P}]"] if mask else [])
+    return {"pool": "script", "src": "\n".join(lines), "fn": "gqa", "it": "[" + ", ".join(its) + "]",
+            "ot": f"[FLOAT[{B}, {Hn}, {S}, {Dh}]]", "variant": f"attrs={attrs}/H{Hn}/Hkv{Hkv}/mask={mask}"}
